@@ -814,21 +814,44 @@ def _compile_config(
         state_configs[s.name] = _compile_state(s, all_states_by_name)
 
     # ⚙️ Merge transitions into state configs
-    trans_by_source_event: Dict[str, Dict[str, List[Transition]]] = (
+    trans_by_source_event: Dict[Any, Dict[str, List[Transition]]] = (
         defaultdict(lambda: defaultdict(list))
     )
 
+    # 🪪 A transition belongs to the State *object* it was declared on. Two
+    #    states at different levels may share a name (`a` and `W.a`); merging
+    #    by bare name gave each of them the other's transitions as well. Only
+    #    a source object that is not part of the tree (an equal-named stand-in)
+    #    is still matched by name.
+    known_state_ids: set = set()
+
+    def _collect_state_ids(state_list: List[State]) -> None:
+        for s in state_list:
+            known_state_ids.add(id(s))
+            _collect_state_ids(s.states)
+
+    _collect_state_ids(states)
+
+    def _source_key(state: State) -> Any:
+        return id(state) if id(state) in known_state_ids else state.name
+
     for t in flat_transitions:
-        trans_by_source_event[t.source.name][t.event].append(t)
+        trans_by_source_event[_source_key(t.source)][t.event].append(t)
 
     def _merge_transitions_into(
-        state_name: str,
+        state: State,
         state_config: Dict[str, Any],
     ) -> None:
-        if state_name in trans_by_source_event:
+        merged: Dict[str, List[Transition]] = defaultdict(list)
+        for source_key in (id(state), state.name):
+            for event, t_list in trans_by_source_event.get(
+                source_key, {}
+            ).items():
+                merged[event].extend(t_list)
+        if merged:
             if "on" not in state_config:
                 state_config["on"] = {}
-            for event, t_list in trans_by_source_event[state_name].items():
+            for event, t_list in merged.items():
                 compiled = []
                 for t in t_list:
                     entry: Dict[str, Any] = {}
@@ -846,12 +869,13 @@ def _compile_config(
                 else:
                     state_config["on"][event] = compiled
         # 📝 Recurse into child states
-        if "states" in state_config:
-            for child_name, child_config in state_config["states"].items():
-                _merge_transitions_into(child_name, child_config)
+        for child in state.states:
+            _merge_transitions_into(
+                child, state_config["states"][child.name]
+            )
 
-    for sname, sconfig in state_configs.items():
-        _merge_transitions_into(sname, sconfig)
+    for s in states:
+        _merge_transitions_into(s, state_configs[s.name])
 
     # ⚙️ Assemble top-level config
     result: Dict[str, Any] = {
